@@ -58,6 +58,8 @@ def run(C, R):
         E = C.engine(cfg)
         CG = C.cg(cfg)
         R.configs.append(cfg)
+        from common import wrapper_discipline
+        R.floor('C05.W wrapper-paths[%s]' % cfg, wrapper_discipline(C, R, cfg, ['sync::semaphore::SemaphoreState'], 'C05.W'), 2)
         nsub = 0
         add_fns = set()
         for m in F.methods_of(STATE):
